@@ -230,7 +230,7 @@ def check_tree(data: dict, lab: Labels) -> None:
 
 
 def st_case(ctx: Ctx):
-    g = T.TreeGen(leaves=ctx.pick(9, 14), share=False, twins=True, origin_rate=0.2)
+    g = T.TreeGen(leaves=ctx.pick(9, 14), share=False, twins=True, origin_rate=0.2, refs=True)
     names = 1 + len(M.CLASS_NAMES)
     return st.fixed_dictionaries(
         {
